@@ -10,6 +10,7 @@ from spverif.ref.crc import crc16
 from . import _cfdp as C
 from . import c02, c03
 
+SCRIBBLE = True
 ID = "C04"
 LEVEL = "fault_enumeration"
 SHARDS = {"quick": 1, "thorough": 16}
@@ -273,6 +274,8 @@ def selftest(ctx):
 
 
 def run(ctx):
+    from spverif.san import scribble
+    scribble.install()
     r = ctx.rng
     full = not ctx.quick
     i = 0
@@ -324,6 +327,7 @@ def run(ctx):
 
 
 def conclude(ctx):
+    ctx.require(ctx.extra.get("hostile_caller_scribbled_pack_results", 0) > 0, "hostile-caller sanitizer scribbled no pack() result")
     for k in ("tc", "tm") + C.KINDS8:
         ctx.require(ctx.tables.get("packets_fully_enumerated", {}).get(k, 0) > 0, f"no {k} packet fully enumerated")
     for k in ("tc", "tm"):
